@@ -84,4 +84,76 @@ SEEDS = [
          new="""        if node.left != EMPTY_REF {
             self.find_left_minimum(node.right)
         } else {""", note='successor step tests the wrong link'),
+
+    dict(id='L1-node-live-ge', props=['C01', 'C06', 'C20'], file='src/key/node.rs',
+         old="self.entity.key.expiration() > time", new="self.entity.key.expiration() >= time",
+         note='tree treats expiration == time as live'),
+    dict(id='L2-list-retain-ge', props=['C13', 'C20'], file='src/key/list.rs',
+         old="let keep = exp > time;", new="let keep = exp >= time;", note='list purge keeps expiration == time'),
+    dict(id='L3-list-guard-ge', props=['C13', 'C20'], file='src/key/list.rs',
+         old="if self.min_exp > time {", new="if self.min_exp >= time {", note='purge skipped when min_exp == time'),
+    dict(id='L4-seg-expiry-le', props=['C03', 'C16'], file='src/seg/tree.rs',
+         old="if item.val.expiration() < self.time {", new="if item.val.expiration() <= self.time {", note='seg drops values expiring exactly at t'),
+    dict(id='L5-export-not-filtered', props=['C07'], file='src/key/array.rs',
+         old="""                    if node.is_not_expired(time) {
+                        list.push(node.entity.val);
+                    }""",
+         new="""                    list.push(node.entity.val);""", note='export emits expired entries'),
+    dict(id='L6-export-own-predicate', props=['C07'], file='src/key/array.rs',
+         old="if node.is_not_expired(time) {", new="if node.entity.key.expiration() >= time {", note='export uses a different predicate (D2 shape)'),
+    dict(id='L7-gate-inverted', props=['C01', 'C06', 'C20'], file='src/key/tree.rs', count=3,
+         old="            if node.is_not_expired(time) {\n                return index;\n            }\n            self.delete_index(index);",
+         new="            if !node.is_not_expired(time) {\n                return index;\n            }\n            self.delete_index(index);", note='gates return expired and delete live'),
+
+    dict(id='G1-key-search-raw-left', props=['C20', 'C01'], file='src/key/tree.rs',
+         old="""                    index = self.expire_right(index, time);
+                },
+                _ => index = self.expire_left(index, time),""",
+         new="""                    index = self.expire_right(index, time);
+                },
+                _ => index = self.node(index).left,""", note='first_less follows the raw left link: expired keys reach Ord::cmp'),
+    dict(id='G2-key-search-raw-root', props=['C20', 'C01'], file='src/key/tree.rs',
+         old="""    fn search_first_less_or_equal(&mut self, time: E, default: V, key: K) -> V {
+        let mut index = self.expire_root(time);""",
+         new="""    fn search_first_less_or_equal(&mut self, time: E, default: V, key: K) -> V {
+        let mut index = self.root;""", note='search starts at an ungated root'),
+    dict(id='G3-list-get-no-purge', props=['C13', 'C20'], file='src/key/list.rs',
+         old="""    fn get_value(&mut self, time: E, key: K) -> Option<V> {
+        self.clear_expired(time);""",
+         new="""    fn get_value(&mut self, time: E, key: K) -> Option<V> {""", note='list lookup without purge'),
+    dict(id='G4-list-insert-no-minexp', props=['C13', 'C20'], file='src/key/list.rs',
+         old="""        self.min_exp = self.min_exp.min(key.expiration());
+""", new="", note='cached minimum not lowered on insert: later purge skipped'),
+    dict(id='G5-list-purge-minexp-max', props=['C13', 'C20'], file='src/key/list.rs',
+         old="""                new_min_exp = new_min_exp.min(exp);""",
+         new="""                new_min_exp = new_min_exp.max(exp);""", note='cache holds the maximum instead of the minimum after a purge'),
+    dict(id='G6-key-insert-raw-descent', props=['C20', 'C01'], file='src/key/tree.rs',
+         old="""            if key < self.node(index).entity.key {
+                index = self.expire_left(index, time);""",
+         new="""            if key < self.node(index).entity.key {
+                index = self.node(index).left;""", note='insert descent left branch skips the gate'),
+    dict(id='G7-gate-returns-after-delete', props=['C20', 'C01', 'C06'], file='src/key/tree.rs',
+         old="""        let mut index = self.root;
+
+        while index != EMPTY_REF {
+            let node = self.node(index);
+            if node.is_not_expired(time) {
+                return index;
+            }
+            self.delete_index(index);
+            index = self.root;
+        }
+        index""",
+         new="""        let mut index = self.root;
+
+        while index != EMPTY_REF {
+            let node = self.node(index);
+            if node.is_not_expired(time) {
+                return index;
+            }
+            self.delete_index(index);
+            index = self.root;
+            return index;
+        }
+        index""", note='root gate removes only one expired root, then returns the next root untested'),
 ]
